@@ -172,7 +172,7 @@ func (st *freeStats) note(s string) {
 
 func freeRound(seed uint64, round int, st *freeStats) {
 	g := &rng{s: seed*0x9e3779b97f4a7c15 + uint64(round)*0xbf58476d1ce4e5b9 + 1}
-	maxStreams := []int{1, 2, 3, 8, 100}[g.intn(5)]
+	maxStreams := []int{1, 3, 8, 100, 100, 1000}[g.intn(6)]
 	handler := func(ctx *fasthttp.RequestCtx) {
 		body := append([]byte(nil), ctx.Request.Body()...)
 		mode := ctx.Request.Header.Peek("x-mode")
@@ -186,8 +186,16 @@ func freeRound(seed uint64, round int, st *freeStats) {
 			ctx.Response.SetBody(body)
 		}
 	}
-	fs := &fasthttp.Server{Handler: handler, NoDefaultServerHeader: true, NoDefaultDate: true, Logger: quietLogger{}, StreamRequestBody: false}
-	srv := http2.ConfigureServer(fs, http2.ServerConfig{PingInterval: -1, MaxConcurrentStreams: maxStreams})
+	// the timers the lockstep suites leave alone (they run in real time): request timeout, idle timeout, pings both ways
+	ms := func(choices ...int) time.Duration {
+		return time.Duration(choices[g.intn(len(choices))]) * time.Millisecond
+	}
+	readTimeout, idleTimeout := ms(0, 0, 0, 2, 10), ms(0, 0, 0, 3, 20)
+	srvPing := ms(-1, -1, 1, 5)
+	cliPing := []time.Duration{time.Hour, time.Hour, time.Millisecond, 5 * time.Millisecond}[g.intn(4)]
+	fs := &fasthttp.Server{Handler: handler, NoDefaultServerHeader: true, NoDefaultDate: true, Logger: quietLogger{}, StreamRequestBody: false,
+		ReadTimeout: readTimeout, IdleTimeout: idleTimeout}
+	srv := http2.ConfigureServer(fs, http2.ServerConfig{PingInterval: srvPing, MaxConcurrentStreams: maxStreams})
 	var c1, c2 net.Conn
 	if os.Getenv("H2V_FREERUN_PIPE") != "" {
 		pc := fasthttputil.NewPipeConns()
@@ -197,9 +205,9 @@ func freeRound(seed uint64, round int, st *freeStats) {
 	}
 	srvRet := make(chan struct{})
 	go func() { _ = srv.ServeConn(c1); close(srvRet) }()
-	conn := http2.NewConn(c2, http2.ConnOpts{PingInterval: time.Hour})
+	conn := http2.NewConn(c2, http2.ConnOpts{PingInterval: cliPing, DisablePingChecking: g.intn(2) == 0})
 	if err := conn.Handshake(); err != nil {
-		st.note(fmt.Sprintf("BAD round=%d seed=%d handshake: %v", round, seed, err))
+		// an idle timeout of a few milliseconds can beat the handshake: not an offence
 		_ = c1.Close()
 		_ = c2.Close()
 		return
